@@ -60,6 +60,10 @@ def _column(rng, n, style):
         for _ in range(rng.choice([1, 1, 2])):
             col[rng.randrange(n)] = Fraction(rng.choice([-1, 1, 1]) * 2 ** rng.randint(8, 16))
         return col
+    if style == "intcount":      # integer-valued replicates (counts)
+        return [Fraction(rng.choice([0, 1, 2, 3, 3, 4, 5, 7, 12, 40])) for _ in range(n)]
+    if style == "constant_int":
+        return [Fraction(rng.randint(0, 9))] * n
     if style == "outlier_pos":   # one large positive outlier: acceleration close to its maximum 1/6
         col = [Fraction(rng.randint(-4, 4), 4) for _ in range(n)]
         col[rng.randrange(n)] = Fraction(2 ** rng.randint(8, 12))
@@ -126,14 +130,17 @@ def _one_case(rng, k, force=None):
         n = min(n, 14)
     Y = force.get("Y", _shape(rng))
     size = _prod(Y)
+    int_dtype = force.get("dtype", "int" if (exact and rng.random() < 0.08) else "float") == "int"
     styles_e = ["constant", "discrete", "discrete", "skewed", "skewed", "outlier", "dyadic", "dyadic"]
+    if int_dtype:
+        styles_e = ["intcount", "intcount", "constant_int"]
     styles_f = ["float", "float", "floatskew", "discrete"]
     cols, hats, cstyles, hstyles = [], [], [], []
-    allnan = rng.random() < 0.03 and size >= 1
+    allnan = rng.random() < 0.03 and size >= 1 and not int_dtype
     for j in range(size):
         st = force.get("style") or rng.choice(styles_e if exact else styles_f)
         col = _column(rng, n, st)
-        if rng.random() < 0.3 and "style" not in force:   # NaNs
+        if rng.random() < 0.3 and "style" not in force and not int_dtype:   # NaNs
             for i in range(n):
                 if rng.random() < 0.2:
                     col[i] = None
@@ -141,6 +148,8 @@ def _one_case(rng, k, force=None):
             col = [None] * n
             st = "allnan"
         hs = force.get("hat_style") or rng.choice(["inside", "replicate", "replicate", "median", "min", "max", "below", "above", "second"])
+        if int_dtype and hs == "inside":
+            hs = "median"
         cols.append(col)
         h = _hat(rng, col, hs, exact)
         hats.append(h if exact else Fraction(float(h)))
@@ -158,13 +167,16 @@ def _one_case(rng, k, force=None):
             a_main = Fraction(force["alpha"])
         alpha = enc(a_main)
     case = {"N": n, "Y": Y, "theta": [enc(x) for x in theta], "hat": [enc(h) for h in hats],
-            "alpha": alpha, "method": method, "exact": bool(exact),
+            "alpha": alpha, "method": method, "exact": bool(exact), "dtype": "int" if int_dtype else "float",
             "styles": cstyles, "hat_styles": hstyles}
     perm = list(range(n))
     rng.shuffle(perm)
     case["perm"] = perm
     case["nanrows"] = sorted(rng.randint(0, n) for _ in range(rng.choice([1, 2, 3])))
-    if exact:
+    if int_dtype:
+        case["nanrows"] = []
+        case["aff"] = [enc(Fraction(rng.choice([2, 3, 5]))), enc(Fraction(rng.randint(-5, 5)))]
+    elif exact:
         case["aff"] = [enc(rng.choice([Fraction(1, 4), Fraction(1, 2), Fraction(2), Fraction(3), Fraction(3, 2), Fraction(8)])),
                        enc(Fraction(rng.randint(-20, 20), 4))]
     else:
@@ -189,6 +201,8 @@ def gen_cases(rng, tier):
             k += 1
         cases.append(_one_case(rng, k, {"method": method, "Y": [2, 2], "exact": True}))
         k += 1
+        cases.append(_one_case(rng, k, {"method": method, "exact": True, "dtype": "int"}))
+        k += 1
     # bca beyond / near the pole of the acceleration term (|a (z0 + z_alpha)| >= 1): formula agreement is claimed there too
     for tiny in (1e-6, 1e-9, 1e-12, 1e-9):
         cases.append(_one_case(rng, k, {"method": "bca", "N": rng.randint(30, 40), "Y": [], "exact": True,
@@ -203,6 +217,8 @@ def gen_cases(rng, tier):
 # ------------------------------------------------------------------ implementation
 def _theta_array(case, np):
     n, Y = case["N"], case["Y"]
+    if case.get("dtype") == "int":
+        return np.array([int(F(v)) for v in case["theta"]], dtype=np.int64).reshape([n] + list(Y))
     vals = [math.nan if v is None else fl(v) for v in case["theta"]]
     return np.array(vals, dtype=float).reshape([n] + list(Y))
 
@@ -225,7 +241,10 @@ def run_impl(case):
 
     theta = _theta_array(case, np)
     Y = list(case["Y"])
-    hat = np.array([fl(h) for h in case["hat"]], dtype=float).reshape(Y)
+    if case.get("dtype") == "int":
+        hat = np.array([int(F(h)) for h in case["hat"]], dtype=np.int64).reshape(Y)
+    else:
+        hat = np.array([fl(h) for h in case["hat"]], dtype=float).reshape(Y)
     alpha = _alpha_value(case, np)
     method = case["method"]
     norm = scipy.stats.norm
@@ -260,12 +279,16 @@ def run_impl(case):
     # reordered replicates
     out["perm"] = call(theta[case["perm"]].copy(), hat.copy(), alpha)
     # all-NaN replicates inserted
-    padded = theta
-    for pos in reversed(case["nanrows"]):
-        padded = np.insert(padded, pos, np.nan, axis=0)
-    out["nanpad"] = call(padded.copy(), hat.copy(), alpha)
+    if case["nanrows"]:
+        padded = theta
+        for pos in reversed(case["nanrows"]):
+            padded = np.insert(padded, pos, np.nan, axis=0)
+        out["nanpad"] = call(padded.copy(), hat.copy(), alpha)
     # affine image
-    a, b = fl(case["aff"][0]), fl(case["aff"][1])
+    if case.get("dtype") == "int":
+        a, b = int(F(case["aff"][0])), int(F(case["aff"][1]))
+    else:
+        a, b = fl(case["aff"][0]), fl(case["aff"][1])
     out["affine"] = call(a * theta + b, a * hat + b, alpha)
     # larger alpha
     if case.get("alpha2") is not None:
@@ -274,7 +297,7 @@ def run_impl(case):
     size = int(np.prod(Y)) if Y else 1
     flat_theta = theta.reshape(case["N"], size)
     flat_hat = hat.reshape(size)
-    out["comp"] = {str(j): call(flat_theta[:, j].copy(), np.float64(flat_hat[j]), alpha) for j in case["comp"]}
+    out["comp"] = {str(j): call(flat_theta[:, j].copy(), flat_hat[j], alpha) for j in case["comp"]}
     return out
 
 
@@ -363,7 +386,8 @@ def coq_term(case, res):
         alarg = f"(AArray {_natlist(ash)} {cq.qlist(Fraction(a) for a in al)})"
     else:
         alarg = f"(AScalar {cq.q(Fraction(al[0]))})"
-    model = (f"(bootstrap_ci no_oracle no_oracle no_oracle {_natlist(Y)} rows {hats} {alarg} {METHOD_COQ[method]})")
+    dt = "DInt" if case.get("dtype") == "int" else "DFloat"
+    model = (f"(bootstrap_ci_dt no_oracle no_oracle no_oracle {dt} {_natlist(Y)} rows {hats} {alarg} {METHOD_COQ[method]})")
     if "ok" not in res:
         # the implementation raised: the model must raise too (all-NaN component with bc/bca)
         return f"(let rows := {rows} in is_err {model})"
@@ -429,6 +453,10 @@ def oracle(case, res):
                      f"({res.get('msg')}) for the whole array instead of returning NaN limits for that component "
                      "(the quantile method does); the limits of the other components are lost, so components are not "
                      "computed independently")]
+        if method == "bca" and case.get("dtype") == "int" and "UFuncTypeError" in str(res.get("err")):
+            return [("C13/int-replicates/bca-raises",
+                     f"method bca with integer-typed replicates and estimate: bootstrap_ci raises {res.get('err')} ({res.get('msg')}) "
+                     "instead of returning the BCa limits (np.divide into out=np.zeros_like(a_num), an integer buffer)")]
         return [("C13/exception", f"bootstrap_ci raised {res.get('err')}: {res.get('msg')}")]
     r = res["ok"]
     want_shape = Y + list(ash) + [2]
@@ -498,8 +526,9 @@ def oracle(case, res):
 
     compare("replicates reordered", "C13/permutation", r.get("perm"))
     compare("all-NaN replicates inserted", "C13/nan-invariance", r.get("nanpad"))
-    a, b = fl(case["aff"][0]), fl(case["aff"][1])
-    compare(f"affine image x -> {a} x + {b}", "C13/affine", r.get("affine"), transform=lambda v: a * v + b, cond_extra=abs(a) + 1e-300)
+    if case.get("aff") is not None:
+        a, b = fl(case["aff"][0]), fl(case["aff"][1])
+        compare(f"affine image x -> {a} x + {b}", "C13/affine", r.get("affine"), transform=lambda v: a * v + b, cond_extra=abs(a) + 1e-300)
     # nested in alpha
     o2 = r.get("alpha2")
     if o2 is not None and case.get("alpha2") is not None:
@@ -562,7 +591,7 @@ def nontrivial(case, res):
 
 def distribution(cases, results):
     d = {"n": len(cases), "method": {}, "exact_stream": 0, "float_stream": 0, "array_alpha": 0, "with_nan": 0,
-         "all_nan_component": 0, "N": {"1": 0, "2": 0, "3-12": 0, "13-40": 0}, "rank_Y": {"0": 0, "1": 0, "2": 0},
+         "all_nan_component": 0, "int_dtype": 0, "N": {"1": 0, "2": 0, "3-12": 0, "13-40": 0}, "rank_Y": {"0": 0, "1": 0, "2": 0},
          "column_style": {}, "estimate_position": {}, "p0_is_0": 0, "p0_is_1": 0, "bca_side_condition_fails": 0,
          "bca_ill_conditioned": 0, "errors": 0}
     for c, r in zip(cases, results):
@@ -570,6 +599,8 @@ def distribution(cases, results):
         d["exact_stream" if c.get("exact") else "float_stream"] += 1
         if isinstance(c["alpha"], dict):
             d["array_alpha"] += 1
+        if c.get("dtype") == "int":
+            d["int_dtype"] += 1
         if any(v is None for v in c["theta"]):
             d["with_nan"] += 1
         n = c["N"]
